@@ -1,7 +1,7 @@
 (* C08/C09 model driver: same line protocol as harness/c08_lookup.c, answers computed by the
    extracted Model/Tables.v over the extracted Gen/TablesData.v *)
 open Model
-open Conv_s
+open Conv
 
 let bit b i = (b lsr i) land 1 = 1
 let ascii_of_char (c : char) : ascii =
